@@ -397,6 +397,14 @@ def run(repo, chk):
                    "the parameter may be a Pattern object (add_junction documents 'str or Pattern'); a record filed under the object is invisible to get_usage(name), "
                    "so remove_pattern of a pattern in use is not refused", expected="<pattern>.name or a str", found=unparse(key))
 
+    # R-C14-1g: the documented way to change a demand's pattern moves the usage record like every other reference-changing setter
+    tps = repo.func(ELEM, "TimeSeries.pattern_name", kind="setter")
+    chk.fn(tps)
+    ops = [last_attr(c) for c in calls(tps) if last_attr(c) in ("add_usage", "remove_usage")]
+    chk.expect("add_usage" in ops and "remove_usage" in ops, "R-C14-1g", "TimeSeries.pattern_name setter moves the usage record from the old pattern to the new one", loc(tps),
+               "Junction.base_demand / demand_pattern are read-only and point to demand_timeseries_list[0].pattern_name = ... as the way to change a pattern; that setter only stores the "
+               "name: the new pattern can be removed while in use and the old one cannot be removed although unused", expected="remove_usage(old) and add_usage(new)", found=ops)
+
     # R-C14-6: a name identifies one element of its kind: every add_* refuses an existing name BEFORE it constructs anything
     dup_sites = [("NodeRegistry", m, "self._data") for m in ("add_junction", "add_tank", "add_reservoir")] + \
                 [("LinkRegistry", m, "self._data") for m in ("add_pipe", "add_pump", "add_valve")] + \
